@@ -33,6 +33,10 @@ BadCount == {HeadersF(2, 1, 0), HeadersF(1, 2, 0), HeadersF(0, 1, 0), HeadersF(1
              HeadersF(32, 33, 0), HeadersF(3, 0, 0), HeadersF(0, 33, 0), HeadersF(1, 0, 7),
              Raw(9, TRUE, 1, 1, 0, 0), Raw(9, TRUE, 0, 0, 0, 0),
              PeerAddrsF(5, 2), PeerAddrsF(257, 257), LocatorF(3, 1), LocatorF(21, 21),
+             \* crafted counts far above what the body holds (and above the caps): the refusal must not
+             \* size anything by the announced count (1048576 PeerAddr = 32 MiB, 65536 = 2 MiB)
+             PeerAddrsF(1048576, 0), PeerAddrsF(1048576, 1), PeerAddrsF(65536, 3), PeerAddrsF(300, 1),
+             LocatorF(255, 1), LocatorF(255, 20), HeadersF(65535, 1, 0), HeadersF(65535, 0, 0), HeadersF(40000, 33, 0),
              Raw(3, TRUE, 15, 15, 16, 0), Raw(10, TRUE, 0, 0, 32, 0)}
 \* decodable body followed by bytes the count does not account for: refused by the statement
 \* (AtLimit frames of the decodable types are of this kind too)
@@ -87,7 +91,8 @@ StartsOf(s, i) == IF i > Len(s) THEN <<>> ELSE <<StartOf(s, i)>> \o StartsOf(s, 
 Case(s) == [frames |-> s, expect |-> ExpectedSeq(s), total |-> Total(s), starts |-> StartsOf(s, 1),
             classes |-> [i \in 1..Len(s) |-> FrameClass(s[i])],
             silent |-> {c \in Cuts(s) : SilenceOK(s, c)},
-            kinds |-> [i \in 1..Len(s) |-> RefusalKind(s[i])]]
+            kinds |-> [i \in 1..Len(s) |-> RefusalKind(s[i])],
+            alloc_max |-> [i \in 1..Len(s) |-> AllocBound(s[i])]]
 EmitSpec == Init /\ [][FALSE]_vars
 Emit == PrintT(<<"CODECCASE", ToJson(Case(stream))>>)
 =========================================================================
